@@ -48,6 +48,9 @@ pub fn rule_docs(ls: &LangSpec, variant: usize, with_fix: bool) -> Vec<Value> {
     json!({"id": "off-rule", "language": ls.lang, "rule": {"pattern": "baz($A)"}, "message": "off rule $A", "severity": "off"}),
     json!({"id": "foreign-rule", "language": ls.other, "rule": {"pattern": "foo($A)"}, "message": "foreign foo"}),
     json!({"id": "tmp-ident", "language": ls.lang, "rule": {"kind": "identifier", "regex": "^tmp"}, "message": "temporary name", "severity": "warning"}),
+    // the message uses a variable produced by a transformation
+    json!({"id": "shout", "language": ls.lang, "rule": {"pattern": "qux($Q)"}, "transform": {"LOUD": {"convert": {"source": "$Q", "toCase": "upperCase"}}},
+           "message": "qux of $LOUD ($Q)", "severity": "info"}),
   ];
   if variant % 2 == 1 {
     v[1]["note"] = json!("a note for bar");
